@@ -82,6 +82,8 @@ theorem mount_show (sig cs k) : mount σ (.show sig cs) k
     = (.show k (k + 1) sig (mountList σ cs (k + 2)).1, (mountList σ cs (k + 2)).2) := rfl
 theorem mount_frag (cs k) : mount σ (.frag cs) k
     = (.frag (mountList σ cs k).1, (mountList σ cs k).2) := rfl
+theorem mount_noHydrate (cs k) : mount σ (.noHydrate cs) k
+    = (.island (mountList σ cs k).1, (mountList σ cs k).2) := rfl
 theorem mountList_nil (k) : mountList σ .nil k = (.nil, k) := rfl
 theorem mountList_cons (v rest k) : mountList σ (.cons v rest) k
     = (.cons (mount σ v k).1 (mountList σ rest (mount σ v k).2).1,
@@ -104,6 +106,8 @@ theorem update_show (s a b sig cs k) : update σ s (.show a b sig cs) k
     = (.show a b sig (updateList σ s cs k).1, (updateList σ s cs k).2) := rfl
 theorem update_frag (s cs k) : update σ s (.frag cs) k
     = (.frag (updateList σ s cs k).1, (updateList σ s cs k).2) := rfl
+theorem update_island (s cs k) : update σ s (.island cs) k
+    = (.island (updateList σ s cs k).1, (updateList σ s cs k).2) := rfl
 theorem updateList_nil (s k) : updateList σ s .nil k = (.nil, k) := rfl
 theorem updateList_cons (s i rest k) : updateList σ s (.cons i rest) k
     = (.cons (update σ s i k).1 (updateList σ s rest (update σ s i k).2).1,
@@ -134,6 +138,7 @@ inductive Realizes (σ : Store) : Inst → VD → Prop
       Realizes σ (.dynView a b sig alts cur) (.dynView sig alts)
   | show {a b sig ci cs} : RealizesList σ ci cs → Realizes σ (.show a b sig ci) (.show sig cs)
   | frag {ci cs} : RealizesList σ ci cs → Realizes σ (.frag ci) (.frag cs)
+  | island {ci cs} : RealizesList σ ci cs → Realizes σ (.island ci) (.noHydrate cs)
 inductive RealizesList (σ : Store) : InstList → VDList → Prop
   | nil : RealizesList σ .nil .nil
   | cons {i v is vs} : Realizes σ i v → RealizesList σ is vs → RealizesList σ (.cons i is) (.cons v vs)
@@ -148,6 +153,7 @@ theorem mount_realizes (σ : Store) : ∀ (vd : VD) (k : Nat), Realizes σ (moun
     rw [mount_dynView]; exact .dynView (mountAlt_realizes σ alts _ _)
   | .show sig cs, k => by rw [mount_show]; exact .show (mountList_realizes σ cs _)
   | .frag cs, k => by rw [mount_frag]; exact .frag (mountList_realizes σ cs _)
+  | .noHydrate cs, k => by rw [mount_noHydrate]; exact .island (mountList_realizes σ cs _)
 theorem mountList_realizes (σ : Store) : ∀ (vds : VDList) (k : Nat), RealizesList σ (mountList σ vds k).1 vds
   | .nil, k => .nil
   | .cons v rest, k => by
@@ -172,6 +178,7 @@ theorem dom_show (σ : Store) (a b sig cs) :
     dom σ (.show a b sig cs)
       = [.comment a] ++ (if σ.get sig % 2 = 1 then domList σ cs else []) ++ [.comment b] := by simp [dom]
 theorem dom_frag (σ : Store) (cs) : dom σ (.frag cs) = domList σ cs := by simp [dom]
+theorem dom_island (σ : Store) (cs) : dom σ (.island cs) = domList σ cs := by simp [dom]
 theorem domList_nil (σ : Store) : domList σ .nil = [] := by simp [domList]
 theorem domList_cons (σ : Store) (i rest) : domList σ (.cons i rest) = dom σ i ++ domList σ rest := by
   simp [domList]
@@ -197,6 +204,8 @@ theorem realizes_shape (σ : Store) : ∀ (inst : Inst) (vd : VD) (k : Nat), Rea
     · rfl
   | .frag ci, _, k, .frag h => by
     rw [mount_frag, dom_frag, dom_frag]; exact realizesList_shape σ ci _ k h
+  | .island ci, _, k, .island h => by
+    rw [mount_noHydrate, dom_island, dom_island]; exact realizesList_shape σ ci _ k h
 theorem realizesList_shape (σ : Store) : ∀ (inst : InstList) (vds : VDList) (k : Nat),
     RealizesList σ inst vds → shapes (domList σ inst) = shapes (domList σ (mountList σ vds k).1)
   | .nil, _, k, .nil => rfl
@@ -227,6 +236,8 @@ theorem update_realizes (σ σ' : Store) (s : Nat) (hσ : ∀ t, t ≠ s → σ'
     rw [update_show]; exact .show (updateList_realizes σ σ' s hσ ci _ k h)
   | .frag ci, _, k, .frag h => by
     rw [update_frag]; exact .frag (updateList_realizes σ σ' s hσ ci _ k h)
+  | .island ci, _, k, .island h => by
+    rw [update_island]; exact .island (updateList_realizes σ σ' s hσ ci _ k h)
 theorem updateList_realizes (σ σ' : Store) (s : Nat) (hσ : ∀ t, t ≠ s → σ'.get t = σ.get t) :
     ∀ (inst : InstList) (vds : VDList) (k : Nat), RealizesList σ inst vds →
       RealizesList σ' (updateList σ' s inst k).1 vds
@@ -284,6 +295,7 @@ def Inst.ids : Inst → List Nat
   | .dynView a b _ _ cur => a :: (cur.ids ++ [b])
   | .show a b _ cs => a :: (cs.ids ++ [b])
   | .frag cs => cs.ids
+  | .island cs => cs.ids
 def InstList.ids : InstList → List Nat
   | .nil => []
   | .cons i rest => i.ids ++ rest.ids
@@ -299,6 +311,7 @@ def stable (s : Nat) : Inst → List Nat
   | .dynView a b sig _ cur => if sig = s then [a, b] else a :: (stableL s cur ++ [b])
   | .show a b _ cs => a :: (stableL s cs ++ [b])
   | .frag cs => stableL s cs
+  | .island cs => stableL s cs
 def stableL (s : Nat) : InstList → List Nat
   | .nil => []
   | .cons i rest => stable s i ++ stableL s rest
@@ -314,6 +327,7 @@ def skeleton (s : Nat) : Inst → Inst
     if sig = s then .dynView a b sig alts .nil else .dynView a b sig alts (skeletonL s cur)
   | .show a b sig cs => .show a b sig (skeletonL s cs)
   | .frag cs => .frag (skeletonL s cs)
+  | .island cs => .island (skeletonL s cs)
 def skeletonL (s : Nat) : InstList → InstList
   | .nil => .nil
   | .cons i rest => .cons (skeleton s i) (skeletonL s rest)
@@ -328,6 +342,7 @@ def noDynOn (s : Nat) : Inst → Bool
   | .dynView _ _ sig _ cur => sig != s && noDynOnL s cur
   | .show _ _ _ cs => noDynOnL s cs
   | .frag cs => noDynOnL s cs
+  | .island cs => noDynOnL s cs
 def noDynOnL (s : Nat) : InstList → Bool
   | .nil => true
   | .cons i rest => noDynOn s i && noDynOnL s rest
@@ -345,6 +360,7 @@ theorem stable_eq_ids_skeleton (s : Nat) : ∀ inst : Inst, stable s inst = (ske
     · simp only [Inst.ids, stableL_eq_ids_skeletonL s cur]
   | .show a b sig cs => by simp only [stable, skeleton, Inst.ids, stableL_eq_ids_skeletonL s cs]
   | .frag cs => by simp only [stable, skeleton, Inst.ids, stableL_eq_ids_skeletonL s cs]
+  | .island cs => by simp only [stable, skeleton, Inst.ids, stableL_eq_ids_skeletonL s cs]
 theorem stableL_eq_ids_skeletonL (s : Nat) : ∀ inst : InstList, stableL s inst = (skeletonL s inst).ids
   | .nil => rfl
   | .cons i rest => by
@@ -366,6 +382,7 @@ theorem stable_sublist (s : Nat) : ∀ inst : Inst, (stable s inst).Sublist inst
     simp only [stable, Inst.ids]
     exact ((stableL_sublist s cs).append (List.Sublist.refl _)).cons_cons _
   | .frag cs => by simp only [stable, Inst.ids]; exact stableL_sublist s cs
+  | .island cs => by simp only [stable, Inst.ids]; exact stableL_sublist s cs
 theorem stableL_sublist (s : Nat) : ∀ inst : InstList, (stableL s inst).Sublist inst.ids
   | .nil => List.Sublist.refl _
   | .cons i rest => by
@@ -389,6 +406,7 @@ theorem ids_dom_sublist (σ : Store) : ∀ inst : Inst, (idsL (dom σ inst)).Sub
     · exact ((ids_domList_sublist σ cs).append (List.Sublist.refl _)).cons_cons _
     · exact (List.sublist_append_right _ _).cons_cons _
   | .frag cs => by rw [dom_frag]; simp only [Inst.ids]; exact ids_domList_sublist σ cs
+  | .island cs => by rw [dom_island]; simp only [Inst.ids]; exact ids_domList_sublist σ cs
 theorem ids_domList_sublist (σ : Store) : ∀ inst : InstList, (idsL (domList σ inst)).Sublist inst.ids
   | .nil => by rw [domList_nil]; exact List.Sublist.refl _
   | .cons i rest => by
@@ -443,6 +461,7 @@ theorem mount_fresh (σ : Store) : ∀ (vd : VD) (k : Nat),
     simp only [Inst.ids]
     exact freshIn_markers h1 h2 h3
   | .frag cs, k => by rw [mount_frag]; exact mountList_fresh σ cs k
+  | .noHydrate cs, k => by rw [mount_noHydrate]; exact mountList_fresh σ cs k
 theorem mountList_fresh (σ : Store) : ∀ (vds : VDList) (k : Nat),
     FreshIn k (mountList σ vds k).2 (mountList σ vds k).1.ids
   | .nil, k => by rw [mountList_nil]; simp [FreshIn, InstList.ids]
@@ -481,6 +500,8 @@ theorem update_skeleton (σ' : Store) (s : Nat) : ∀ (inst : Inst) (k : Nat),
     rw [update_show]; simp only [skeleton, updateList_skeleton σ' s cs k]
   | .frag cs, k => by
     rw [update_frag]; simp only [skeleton, updateList_skeleton σ' s cs k]
+  | .island cs, k => by
+    rw [update_island]; simp only [skeleton, updateList_skeleton σ' s cs k]
 theorem updateList_skeleton (σ' : Store) (s : Nat) : ∀ (inst : InstList) (k : Nat),
     skeletonL s (updateList σ' s inst k).1 = skeletonL s inst
   | .nil, k => rfl
@@ -536,6 +557,7 @@ theorem update_ids (σ' : Store) (s : Nat) : ∀ (inst : Inst) (k : Nat),
     rw [update_show]; simp only [Inst.ids]
     exact oldOrNew_markers (updateList_ids σ' s cs k)
   | .frag cs, k => by rw [update_frag]; simp only [Inst.ids]; exact updateList_ids σ' s cs k
+  | .island cs, k => by rw [update_island]; simp only [Inst.ids]; exact updateList_ids σ' s cs k
 theorem updateList_ids (σ' : Store) (s : Nat) : ∀ (inst : InstList) (k : Nat),
     OldOrNew k (updateList σ' s inst k).2 inst.ids (updateList σ' s inst k).1.ids
   | .nil, k => by rw [updateList_nil]; exact ⟨Nat.le_refl _, fun x hx => .inl hx⟩
@@ -607,6 +629,8 @@ theorem update_nodup (σ' : Store) (s : Nat) : ∀ (inst : Inst) (k : Nat), IdsO
     exact nodup_markers h (updateList_ids σ' s cs k) (updateList_nodup σ' s cs k h.mid)
   | .frag cs, k, h => by
     rw [update_frag]; simp only [Inst.ids] at h ⊢; exact updateList_nodup σ' s cs k h
+  | .island cs, k, h => by
+    rw [update_island]; simp only [Inst.ids] at h ⊢; exact updateList_nodup σ' s cs k h
 theorem updateList_nodup (σ' : Store) (s : Nat) : ∀ (inst : InstList) (k : Nat), IdsOk k inst.ids →
     (updateList σ' s inst k).1.ids.Nodup
   | .nil, k, h => by rw [updateList_nil]; exact h.2
@@ -664,6 +688,8 @@ theorem update_untouched (σ' : Store) (s : Nat) : ∀ (inst : Inst) (k : Nat), 
     rw [update_show, updateList_untouched σ' s cs k (by simpa [noDynOn] using h)]
   | .frag cs, k, h => by
     rw [update_frag, updateList_untouched σ' s cs k (by simpa [noDynOn] using h)]
+  | .island cs, k, h => by
+    rw [update_island, updateList_untouched σ' s cs k (by simpa [noDynOn] using h)]
 theorem updateList_untouched (σ' : Store) (s : Nat) : ∀ (inst : InstList) (k : Nat),
     noDynOnL s inst = true → updateList σ' s inst k = (inst, k)
   | .nil, k, _ => rfl
